@@ -513,6 +513,27 @@ def run(ctx):
                 continue
             emit("syntax", toks, icase, prefix, r, observe("syntax", text, toks, icase, prefix, r), "rnd")
             recs[-1]["text"] = text
+    # ---------------- a placeholder's regex may itself contain slashes (interface names): it ends at the LAST slash of its word, for the
+    # matcher and for the removal template alike (the shipped rules of this shape carry anchors or logics that hide the template)
+    slash_texts = ["interface */(GigabitEthernet0/0/1|100GE1/0/1)/", "interface */[A-Za-z0-9]+/[0-9/]+/ mode *", "port */ge-\\d/\\d/\\d+/",
+                   "link */(ge-0/0/1|xe-1/2)/ ~", "lag * member */\\w+/\\d/\\d/", "*/[a-z]+-[0-9/]+/ up", "trunk */1/[0-9]+/ */2/[0-9]+/"]
+    slash_alpha = ["ge-0/0/1", "ge-1/2/30", "xe-1/2", "1/7", "2/40", "GigabitEthernet0/0/1", "100GE1/0/1", "Eth1/2", "ae1", "x1", "10"]
+    for text in slash_texts:
+        for vend in ("huawei", "cisco", "juniper"):
+            prefix = E.vendor(vend).reverse
+            try:
+                toks, icase, alphabet = lex_rule_row(text, alphabet_extra=slash_alpha)
+            except Outside as o:
+                raise core.Machinery("slash tier: pattern left the token language: %s (%s)" % (text, o))
+            comp = {"patching": list(compile_patching_text(text + "\n", vend)["local"].values())[0],
+                    "acl": list(compile_acl_text(text + "\n", vend)["local"].values())[0],
+                    "ordering": list(compile_ordering_text(text + "\n", vend).values())[0]}
+            for r in synth_rows(toks, alphabet, rnd, 6 if quick else 40):
+                if not word_in_alphabet(toks, r, alphabet):
+                    continue
+                emit("syntax", toks, icase, prefix, r, observe("syntax", text, toks, icase, prefix, r), "slash")
+                for kind, c in comp.items():
+                    emit(kind, toks, icase, prefix, r, observe(kind, text, toks, icase, prefix, r, compiled=c), "slash")
     ctx.sample({"kind": "shipped/random", "pattern": recs[-1]["text"], "row": recs[-1]["row"], "matched": recs[-1]["m"], "key": recs[-1]["key"]})
     slim = [{k: v for k, v in r.items() if k not in ("text", "kind")} for r in recs]
     verd = ctx.judge("trace/Trace_RuleLang.tla", "trace/Trace.cfg", slim, shards=16)
